@@ -26,7 +26,7 @@ ASSUMPTIONS = [
     "bit 1 of head.flags is recomputed by fontTools for glyf fonts and masked for TrueType",
 ]
 N = {"quick": (8, 250), "thorough": (16, 1200)}
-FLOORS = {"non-ascii-string": 0.4, "otf": 0.3, ">=10-attributes": 0.5}
+FLOORS = {"non-ascii-string": 0.279, "otf": 0.25, ">=10-attributes": 0.238}  # a third of the measured frequency: a starving generator is a harness error, sampling noise is not
 
 XML_OK = st.characters(blacklist_categories=("Cs",), blacklist_characters="".join(chr(i) for i in range(32) if i not in (9, 10, 13)) + "\x7f￾￿")
 text = st.text(alphabet=XML_OK, min_size=1, max_size=12)
